@@ -1,12 +1,13 @@
 import Driver.Dwarf
 import Driver.Cfi
 import Driver.Adt
+import Driver.Abi
 
 /-! One JSON request per input line, one JSON answer per output line. -/
 open Lean Driver
 
 def handlers : List (String → Json → Option (Except String Json)) :=
-  [Driver.Dwarf.handle, Driver.Cfi.handle, Driver.Adt.handle]
+  [Driver.Dwarf.handle, Driver.Cfi.handle, Driver.Adt.handle, Driver.Abi.handle]
 
 def dispatch (line : String) : Json :=
   match Json.parse line with
